@@ -215,6 +215,10 @@ class Sky130Walker(h.HierarchyWalker):
 
         # Select appropriate parameters for 20V/ESD-G5V0D10V5 mosfets
         if "20v" in mod.name:
+            if params.nf is not None and params.nf != 1:
+                # These devices have no finger-count parameter
+                msg = f"Invalid number of fingers nf={params.nf} for {mod.name}, which takes sizes w, l, and a multiplier only"
+                raise RuntimeError(msg)
             defaults = Sky130Mos20VParams.default_instance()
             modparams = Sky130Mos20VParams(w=w, l=l, m=params.mult or defaults.m)
 
